@@ -50,6 +50,8 @@ func checkC14(c *Ctx) {
 	guards := guardedFields(p, "imapserver", "imapserver/imapmemserver")
 	c.rule("C14.e", "a reference loaded from a guarded map/slice field is used only while the lock is held", 10)
 	ruleGuardedRefEscapes(c, "C14.e", la, guards, "imapserver", "imapserver/imapmemserver")
+	c.rule("C14.f", "a channel field that another function sends on outside the lock is never closed", 1)
+	ruleNoCloseOfSharedSendChannel(c, "C14.f", "imapserver", "imapserver/imapmemserver")
 	var glist []string
 	seenG := map[string]bool{}
 	for v, g := range guards {
